@@ -260,7 +260,15 @@ def gen_calc(r, k, tier):
     if r.random() < 0.35:
         coup = [[i, j, r.choice([0.5, -0.5, 1.0])] for i in range(N) for j in range(i + 1, N) if r.random() < 0.8]
     ang = [r.uniform(0, 2 * math.pi), r.uniform(0, math.pi), r.uniform(0, 2 * math.pi)]
-    return {"kind": "calc", "en": en, "dip": dip, "wd": wd, "ga": ga, "coup": coup, "shape": shape, "pol": rpol(r),
+    ucoh = []
+    if not coup and r.random() < 0.6:
+        # evolution of the one-exciton coherences during t2: exp(-i w_ab t2 - gamma t2) at waiting times where the real
+        # part is positive, zero or negative
+        for a in range(1, N + 1):
+            for b in range(a + 1, N + 1):
+                ucoh.append([a, b] + list(r.choice([[-1.0, 0.0], [0.0, 1.0], [0.0, -0.5], [-0.5, 0.5], [0.5, -0.5], [0.25, 0.0],
+                                                    [-0.75, -0.25]])))
+    return {"kind": "calc", "ucoh": ucoh, "en": en, "dip": dip, "wd": wd, "ga": ga, "coup": coup, "shape": shape, "pol": rpol(r),
             "angles": ang, "reflect": r.random() < 0.3, "scale_pow": r.choice([-2, -1, 1, 2, 3]), "scale": r.choice([3.0, 0.7, 1.9]),
             "perm": r.sample(range(N), N)}
 
@@ -386,7 +394,12 @@ def run_orient(chk, c):
 
 
 # ------------------------------------------------------------------ calculator monitors
-def spectrum(c, pol, shape, sub=None, dips=None):
+def spectrum(c, pol, shape, sub=None, dips=None, ucoh=None):
+    """MockTwoDResponseCalculator.calculate_one_system on the aggregate; returns the three signals, the number of
+    pathways and the natural scale of the result: sum over the generated pathways of (largest value of the pathway's
+    line shape with unit prefactor) x (largest dipole)^4 x |e0||e1||e2||e3| / 5 - it does not vanish when the
+    orientational prefactors do.  ucoh = [[a, b, re, im], ...]: evolution factors of the one-exciton coherences
+    |a><b| during t2 (site labels 1..N; only used for uncoupled molecules, where sites are the eigenstates)."""
     import numpy
     import quantarhei as qr
     from quantarhei.spectroscopy.mocktwodcalculator import MockTwoDResponseCalculator
@@ -403,6 +416,12 @@ def spectrum(c, pol, shape, sub=None, dips=None):
     calc = MockTwoDResponseCalculator(t1, t2, t3)
     calc.bootstrap(rwa=10.5, shape=shape)
     eUt = qr.qm.SOpUnity(dim=H1.dim)
+    if ucoh:
+        dat = numpy.array(eUt.data, dtype=complex)
+        for (a, b, re_, im_) in ucoh:
+            dat[a, b, a, b] = complex(re_, im_)
+            dat[b, a, b, a] = complex(re_, -im_)
+        eUt.data = dat
     eUt.get_Hamiltonian = lambda: H1
     lab = make_lab(pol)
     pw = {}
@@ -411,53 +430,77 @@ def spectrum(c, pol, shape, sub=None, dips=None):
     for key, flag in (("T", qr.signal_TOTL), ("R", qr.signal_REPH), ("N", qr.signal_NONR)):
         tw.set_data_flag(flag)
         out[key] = numpy.array(tw.d__data, dtype=complex)
-    return out, len(pw[str(0.0)])
+    pws = pw[str(0.0)]
+    dmax = max([math.sqrt(sum(float(x) ** 2 for x in d)) for d in cc["dip"]] + [0.0])
+    emag = 1.0
+    for e in pol:
+        emag *= math.sqrt(sum(float(x) ** 2 for x in e))
+    shapes = 0.0
+    for p in pws:
+        keep = p.pref
+        p.pref = 1.0
+        try:
+            shapes += float(numpy.abs(calc.calculate_pathway(p, shape=shape)).max()) * max(1.0, abs(p.evolfac))
+        finally:
+            p.pref = keep
+    scale = shapes * (dmax ** 4) * emag / 5.0
+    return out, len(pws), scale
+
+
+FLOOR = 1e-290       # absolute floor of every tolerance (responses of O(1) inputs are O(1e-3 .. 1e3))
 
 
 def run_calc(chk, c):
     import numpy
     shape = c["shape"]
     N = len(c["en"])
-    full, npw = spectrum(c, c["pol"], shape)
+    ucoh = c.get("ucoh") or None
+    if c["coup"]:
+        ucoh = None
+    full, npw, scale = spectrum(c, c["pol"], shape, ucoh=ucoh)
     T = full["T"]
-    mx = max(numpy.abs(T).max(), numpy.abs(full["R"]).max(), numpy.abs(full["N"]).max(), 1e-300)
-    cls = "%s,%s" % (shape, "coupled" if c["coup"] else "uncoupled")
+    mx = max(numpy.abs(T).max(), numpy.abs(full["R"]).max(), numpy.abs(full["N"]).max())
+    cls = "%s,%s%s" % (shape, "coupled" if c["coup"] else "uncoupled", ",coherence-evolution" if ucoh else "")
     if not numpy.isfinite(T).all():
         chk.violation("calc:nonfinite:" + cls, "response contains non-finite values for %s" % json.dumps(c), "monitor", c)
         chk.case(c, False)
         return
+    if mx > scale * 1.0000001 + FLOOR:
+        chk.violation("harness:scale", "largest response %g exceeds the input scale %g used for the tolerances" % (mx, scale),
+                      "monitor", c, found_input=False)
     # total = rephasing + non-rephasing
     dev = numpy.abs(T - (full["R"] + full["N"])).max()
-    if dev > 1e-12 * mx:
-        chk.violation("calc:total_vs_parts:" + cls, "total signal differs from rephasing + non-rephasing by %g (max %g)" % (dev, mx),
+    if dev > 1e-12 * scale + FLOOR:
+        chk.violation("calc:total_vs_parts:" + cls, "total signal differs from rephasing + non-rephasing by %g (scale %g)" % (dev, scale),
                       "monitor", c)
     # common rotation (proper or improper) of all dipoles, and of all polarisations
     Q = rot_euler(*c["angles"])
     if c["reflect"]:
         Q = Q.dot(numpy.diag([1.0, 1.0, -1.0]))
     dr = [list(Q.dot(numpy.array(d, dtype=float))) for d in c["dip"]]
-    rotd, _ = spectrum(c, c["pol"], shape, dips=dr)
+    rotd, _, _ = spectrum(c, c["pol"], shape, dips=dr, ucoh=ucoh)
     dev = numpy.abs(rotd["T"] - T).max()
-    if dev > 1e-10 * mx:
-        chk.violation("calc:rotate_dipoles:" + cls, "response changes by %g (max %g) under a common rotation of all dipoles" % (dev, mx),
+    if dev > 1e-10 * scale + FLOOR:
+        chk.violation("calc:rotate_dipoles:" + cls, "response changes by %g (scale %g) under a common rotation of all dipoles" % (dev, scale),
                       "monitor", c)
     pr = [list(Q.dot(numpy.array(p, dtype=float))) for p in c["pol"]]
-    rote, _ = spectrum(c, pr, shape)
+    rote, _, _ = spectrum(c, pr, shape, ucoh=ucoh)
     dev = numpy.abs(rote["T"] - T).max()
-    if dev > 1e-10 * mx:
-        chk.violation("calc:rotate_polarisations:" + cls, "response changes by %g (max %g) under a common rotation of all polarisations"
-                      % (dev, mx), "monitor", c)
-    # quartic scaling: exact for powers of two, 1e-12 otherwise
+    if dev > 1e-10 * scale + FLOOR:
+        chk.violation("calc:rotate_polarisations:" + cls, "response changes by %g (scale %g) under a common rotation of all polarisations"
+                      % (dev, scale), "monitor", c)
+    # quartic scaling: exact for powers of two, 1e-11 of the scale otherwise
     s = 2.0 ** c["scale_pow"]
-    sc, _ = spectrum(c, c["pol"], shape, dips=[[s * x for x in d] for d in c["dip"]])
+    sc, _, _ = spectrum(c, c["pol"], shape, dips=[[s * x for x in d] for d in c["dip"]], ucoh=ucoh)
     if not numpy.array_equal(sc["T"], (s ** 4) * T):
         chk.violation("calc:scale_pow2:" + cls, "response of dipoles scaled by %g is not exactly %g times the response (max dev %g)"
                       % (s, s ** 4, numpy.abs(sc["T"] - s ** 4 * T).max()), "monitor", c)
     s = c["scale"]
-    sc, _ = spectrum(c, c["pol"], shape, dips=[[s * x for x in d] for d in c["dip"]])
+    sc, _, _ = spectrum(c, c["pol"], shape, dips=[[s * x for x in d] for d in c["dip"]], ucoh=ucoh)
     dev = numpy.abs(sc["T"] - (s ** 4) * T).max()
-    if dev > 1e-11 * mx * s ** 4:
-        chk.violation("calc:scale:" + cls, "response of dipoles scaled by %g deviates from s^4 scaling by %g" % (s, dev), "monitor", c)
+    if dev > 1e-11 * scale * s ** 4 + FLOOR:
+        chk.violation("calc:scale:" + cls, "response of dipoles scaled by %g deviates from s^4 scaling by %g (scale %g)"
+                      % (s, dev, scale * s ** 4), "monitor", c)
     # relabelling the molecules
     perm = c["perm"]
     cp = dict(c)
@@ -466,31 +509,32 @@ def run_calc(chk, c):
     cp["wd"] = [c["wd"][i] for i in perm]
     cp["ga"] = [c["ga"][i] for i in perm]
     cp["coup"] = [[perm.index(i), perm.index(j), v] for (i, j, v) in c["coup"]]
-    pm, _ = spectrum(cp, c["pol"], shape)
+    ucp = [[perm.index(a - 1) + 1, perm.index(b - 1) + 1, re_, im_] for (a, b, re_, im_) in ucoh] if ucoh else None
+    pm, _, _ = spectrum(cp, c["pol"], shape, ucoh=ucp)
     dev = numpy.abs(pm["T"] - T).max()
-    if dev > 1e-10 * mx:
-        chk.violation("calc:relabel:" + cls, "response changes by %g (max %g) when the molecules are relabelled by %s" % (dev, mx, perm),
+    if dev > 1e-10 * scale + FLOOR:
+        chk.violation("calc:relabel:" + cls, "response changes by %g (scale %g) when the molecules are relabelled by %s" % (dev, scale, perm),
                       "monitor", c)
-    # additivity for uncoupled molecules
+    # additivity for uncoupled molecules (for every evolution of the one-exciton coherences during t2)
     if not c["coup"]:
         parts = None
         for a in range(N):
-            one, _ = spectrum(c, c["pol"], shape, sub=[a])
+            one, _, _ = spectrum(c, c["pol"], shape, sub=[a])
             parts = one["T"] if parts is None else parts + one["T"]
         dev = numpy.abs(T - parts).max()
-        mxa = max(mx, numpy.abs(parts).max())
         equal_ga = len(set(c["ga"])) == 1
-        if dev > 1e-10 * mxa:
+        if dev > 1e-10 * scale + FLOOR:
             if shape == "Lorentzian" and not equal_ga:
                 chk.violation("additivity:lorentzian_unequal_dephasing",
                               "uncoupled molecules with dephasings %s, Lorentzian line shape: response differs from the sum of the "
-                              "molecular responses by %g (max %g): ESA transitions get the dephasing of the one-exciton state"
-                              % (c["ga"], dev, mxa), "monitor", c)
+                              "molecular responses by %g (scale %g): ESA transitions get the dephasing of the one-exciton state"
+                              % (c["ga"], dev, scale), "monitor", c)
             else:
                 chk.violation("additivity:" + cls, "uncoupled molecules: response differs from the sum of the molecular responses by %g "
-                              "(max %g), ESA does not cancel the cross peaks; case %s" % (dev, mxa, json.dumps(c)), "monitor", c)
+                              "(scale %g), ESA does not cancel the cross peaks; case %s" % (dev, scale, json.dumps(c)), "monitor", c)
     chk.count("calc:" + cls)
-    chk.case(c, mx > 1e-9 and npw > 4, sample={"case": c, "pathways": npw, "max": float(mx)})
+    chk.count("calc:vanishing_response" if mx <= 1e-9 * scale else "calc:nonvanishing_response")
+    chk.case(c, mx > 1e-9 * scale and npw > 4, sample={"case": c, "pathways": npw, "max": float(mx), "scale": float(scale)})
 
 
 # ------------------------------------------------------------------ pathway lists against the model
@@ -610,6 +654,9 @@ def run(chk, cases):
 
 
 CORPUS = [
+    # uncoupled dimer at a waiting time where the coherence |1><2| has evolved to -1 (cos(w_ab t2) < 0)
+    {"kind": "calc", "ucoh": [[1, 2, -1.0, 0.0]], "en": [9, 11], "dip": [[1, 1, 0], [0, 2, 1]], "wd": [0.5, 1.0], "ga": [0.5, 0.5], "coup": [],
+     "shape": "Gaussian", "pol": [[1, 0, 0]] * 4, "angles": [0.3, 1.1, 2.0], "reflect": False, "scale_pow": 1, "scale": 3.0, "perm": [1, 0]},
     # the four polarisation schemes on a dimer with perpendicular dipoles
     {"kind": "gen", "en": [9, 11], "dip": [[1, 0, 0], [0, 2, 0]], "wd": [0.5, 1.0], "ga": [0.25, 0.5], "coup": [], "umod": [],
      "pol": [[1, 0, 0], [1, 0, 0], [0, 1, 0], [0, 1, 0]], "dtol": 1e-12},
@@ -640,7 +687,9 @@ def main():
         "line shapes (cvoigt/erfcx, lorentzian) are oracles: the theorems hold for every line-shape function",
         "thresholds D2 > sqrt(D2_max)*dtol, rho0 > ptol, |evf| > etol enter the model as flags computed from the observed numbers",
         "tolerance of the correspondence 1e-11 relative (integers, names, transitions, signs exact); monitors 1e-10 relative "
-        "(rotations by float matrices), 1e-12 for total = R + NR, exact for scaling by powers of two",
+        "(rotations by float matrices), 1e-12 for total = R + NR, exact for scaling by powers of two; calculator tolerances are relative "
+        "to the input scale sum_pathways max|line shape| x max|d|^4 x |e0||e1||e2||e3| / 5 (does not vanish with the prefactors), "
+        "absolute floor 1e-290",
         "cited mathematics: the icosahedral rotation group is a 5-design on SO(3), hence its average of a quartic form equals the Haar "
         "average; monitored against an Euler-angle product quadrature that is exact for degree 4",
     ]
